@@ -32,7 +32,7 @@ def run_case(cs, ctx):
                         'shapes': ['dense', 'big_targets', 'one_lecturer', 'lec_gt_students', 'tight_lecturer', 'lowerq']}
     if crit in ('mincost', 'minsqcost'):
         prof['spec'] = {'shapes': ['dense', 'no_ties', 'lowerq', 'lowerq', 'tight_lecturer', 'one_lecturer']}
-        prof['opts'] = dict(prof['opts'], twopl=True)
+        prof['opts'] = dict(prof['opts'], twopl=(cs // 9) % 10 < 7, pc=None if (cs // 9) % 10 < 7 else (cs // 90) % 2 == 0)
         prof['medium_rate'] = 0.4
     if crit in ('gen', 'gre'):
         prof['spec'] = {'shapes': ['dense', 'long_lists', 'no_ties', 'lowerq', 'tight_lecturer']}
